@@ -4,6 +4,7 @@ from /repo's working tree, in-process, unmodified) and renders every answer in
 exactly the text format that the Lean driver (lean/Main.lean) prints, using the
 public accessors only.
 """
+import math
 import weakref
 import os
 import sys
@@ -60,6 +61,15 @@ def _some_function(x=None):
 
 
 VALREPS[7] = [_some_function]
+
+
+def attrname(a):
+    """the name of user attribute number `a`; number 3 is a DOTTED name (`a0.real`): a legal attribute name that a
+    lookup through `operator.attrgetter` / nested getattr would read as attribute `real` of attribute `a0`"""
+    return "a0.real" if str(a) == "3" else "a" + str(a)
+
+# a value that is not equal to itself; ONE object, stored on vertices and sought (an identity shortcut before `==` finds it)
+VALREPS[8] = [math.nan]
 
 # user attributes given to links: ordinary payload whose NAMES a careless implementation might use itself
 LINK_ATTRS = {
@@ -674,7 +684,7 @@ class Real:
             for t in s.split(","):
                 a, b = t.split(":")
                 reps = VALREPS[int(b)]
-                out["a" + a] = reps[(vid + int(a)) % len(reps)]
+                out[attrname(a)] = reps[(vid + int(a)) % len(reps)]
         return out
 
     # -------------------------------------------------------------- rendering
@@ -722,7 +732,7 @@ class Real:
     @staticmethod
     def valclass(val):
         for k, reps in VALREPS.items():
-            if type(val) in [type(r) for r in reps] and val == reps[0]:
+            if type(val) in [type(r) for r in reps] and (val is reps[0] or val == reps[0]):
                 return k
         return 99
 
@@ -999,7 +1009,7 @@ class Real:
             return out
         if op == "sattr":
             reps = VALREPS[int(toks[3])]
-            setattr(self.pv(toks[1]), "a" + toks[2], reps[len(self.V) % len(reps)])
+            setattr(self.pv(toks[1]), attrname(toks[2]), reps[len(self.V) % len(reps)])
             return "ok"
         if op == "attr":
             # attr V<b> <name> tup:V<a> | fs:V<a> | nest:V<a>:V<c> | lst:V<a>:V<c> | same:V<c>.<name>
@@ -1109,7 +1119,7 @@ class Real:
             return out
         if op in ("bfs", "dfsr", "dfsi"):
             uni, start = self.pv(toks[1]), self.pv(toks[2])
-            attr = "a" + toks[3]
+            attr = attrname(toks[3])
             val = VALREPS[int(toks[4])][0]
             fn = {"bfs": breadthfirst.bfs, "dfsr": depthfirst.dfs_recursive,
                   "dfsi": depthfirst.dfs_iterative}[op]
